@@ -195,10 +195,14 @@ func (db *DB) rawset(entry types.Entry) {
 		db.memtable.freeze()
 		imt := db.memtable
 
-		db.flushC <- imt
+		// readers walk memtable and immutables under db.mu: publish the frozen
+		// memtable and its successor together, before the flusher can see it
+		db.mu.Lock()
 		db.immutables.PushBack(imt)
+		db.memtable = imt.reset()
+		db.mu.Unlock()
 
-		db.memtable = db.memtable.reset()
+		db.flushC <- imt
 	}
 }
 
@@ -223,8 +227,14 @@ LOOP:
 			db.flushImmutable(imt)
 			db.manager.checkAndCompact()
 
+			// memtables are flushed in the order they were frozen: imt is the oldest
 			db.mu.Lock()
-			db.immutables.Remove(db.immutables.Back())
+			for e := db.immutables.Front(); e != nil; e = e.Next() {
+				if e.Value.(*memtable) == imt {
+					db.immutables.Remove(e)
+					break
+				}
+			}
 			db.mu.Unlock()
 
 			if closed && len(db.flushC) == 0 {
